@@ -203,8 +203,8 @@ def correspond(ctx, scale):
         for (n, c, m) in cfgs:
             q = make(cls, n, c, m, False)
             seeds = range(seeds_per_cfg) if seeds_per_cfg >= 10000 else sorted(rng.sample(range(10000), min(seeds_per_cfg, 10000)))
-            if ctx.thorough and cls.startswith('Grouped'):
-                seeds = list(seeds)[::5]
+            if ctx.thorough and cls != 'ResidualVQ':
+                seeds = list(seeds)[::5]       # all 10 000 seeds for ResidualVQ, every 5th for the other six classes (the randrange table covers all seeds anyway)
             for seed in seeds:
                 try:
                     flags, problems = run_one(q, cls, n, seed, False)
